@@ -185,11 +185,20 @@ def run_sequences(out, stream, n_ports, seqs):
         for k, t in asyncio.run(again()).items():
             if t != io[k]:
                 out.notes.append("sequence %s gave %s, then %s on fresh ports: not reproducible, second run kept" % (seqs[k], io[k], t)); io[k] = t
+    # the Spec's own reading of each history (Spec/BridgeHistory.v, extracted; theorem C17_refines_history): the whole trace, step by step
+    sp = lib.run_model([lib.req("bridge_spec", list(range(n_ports)), [[k, i] for k, i in s if k not in (5, 8)]) for s in seqs])
+    def history_judge(s_, t, spec):
+        if any(k == 8 for k, _ in s_): return "ok"            # a cancelled start is outside the history reading; the clause judge covers what follows
+        got = [x for x in t.split("|")[:-1] if not x.startswith(("LATE=", "ODD=")) and x != "T"]; want = spec.split("|")[:-1]
+        for j, (g, w) in enumerate(zip(got, want)):
+            if g != w: return "step %d of the trace is %s where the history (Spec/BridgeHistory.v) says %s (trace %s)" % (j + 1, g, w, t)
+        return "ok"
+    hist = [history_judge(s_, t, spc) for s_, t, spc in zip(seqs, io, sp)]
     cases = [{"ports": n_ports, "acts": [list(a) for a in s]} for s in seqs]
     names = ["start", "stop", "occupy", "release", "send", "send-without-waiting", "stop-another-bridge-object", "another-bridge-object-fails-to-start", "start-cancelled-between-ports"]
     lib.differential(out, stream, cases, io, mo, ["ok"] * len(cases), lambda c: "%d ports: " % c["ports"] + ", ".join(names[k] + ("" if k < 2 else " %d" % i) for k, i in c["acts"]),
                      nontrivial=lambda c: any(k == 0 for k, _ in c["acts"]), sample=lambda c: c, classify=lambda c, i: "len%d" % len(c["acts"]),
-                     impl_spec=[spec_judge(n_ports, t, s_) for t, s_ in zip(io, seqs)])
+                     impl_spec=[(lambda a, b: a if a != "ok" else b)(spec_judge(n_ports, t, s_), h) for t, s_, h in zip(io, seqs, hist)])
 
 
 async def context_form():
